@@ -6,6 +6,7 @@
 import PM.Map
 import PM.MapFold
 import Proofs.Map
+import Proofs.StepMapLeft
 namespace PM
 
 /-! ### the scan over stored (non-inverted) ranges, in plain coordinates -/
@@ -287,5 +288,64 @@ theorem deletedFold_eq_covered : ∀ (ms : List StepMap),
         (hs.imp id (fun h' => h' m List.mem_cons_self)),
       deletedFold_eq_covered ms (fun x hx => h x (List.mem_cons_of_mem _ hx)) a _
         (hs.imp id (fun h' x hx => h' x (List.mem_cons_of_mem _ hx)))]
+
+/-! ### a surviving token keeps width one -/
+
+/-- one range: for a token `i` outside the range, the left image of the position after it is one
+    past the right image of the position before it -/
+theorem map_one_unit (f o n i : Int) (ho : 0 ≤ o) (hout : i < f ∨ f + o ≤ i) :
+    (StepMap.mk [(f, o, n)] false).map (i + 1) (-1) = (StepMap.mk [(f, o, n)] false).map i 1 + 1 := by
+  rw [map_one_rule _ _ _ _ _ ho, map_one_rule _ _ _ _ _ ho]
+  simp only [rangeSide]
+  repeat' split
+  all_goals omega
+
+/-- two ranges, left side: at or before the start of the first range -/
+theorem map_two_left_le (f o n g o' n' p : Int) (ho : 0 ≤ o) (ho' : 0 ≤ o') (h : p ≤ f) :
+    (StepMap.mk [(f, o, n), (g, o', n')] false).map p (-1) = p := by
+  rw [map_two_rule _ _ _ _ _ _ _ _ ho ho']
+  by_cases h1 : p < f
+  · rw [if_pos h1]
+  · have hp : p = f := by omega
+    subst hp
+    rw [if_neg h1, if_pos (by omega)]
+    simp only [rangeSide]
+    split <;> simp
+
+/-- two ranges, left side: strictly after the first range, at or before the start of the second -/
+theorem map_two_left_mid (f o n g o' n' p : Int) (ho : 0 ≤ o) (ho' : 0 ≤ o') (h1 : f + o < p) (h2 : p ≤ g) :
+    (StepMap.mk [(f, o, n), (g, o', n')] false).map p (-1) = p + (n - o) := by
+  rw [map_two_rule _ _ _ _ _ _ _ _ ho ho', if_neg (by omega), if_neg (by omega)]
+  by_cases h3 : p < g
+  · rw [if_pos h3]
+  · have hp : p = g := by omega
+    subst hp
+    rw [if_neg h3, if_pos (by omega)]
+    simp only [rangeSide]
+    split <;> simp
+
+/-- two ranges, left side: strictly after both -/
+theorem map_two_left_gt (f o n g o' n' p : Int) (ho : 0 ≤ o) (ho' : 0 ≤ o') (hfg : f + o ≤ g)
+    (h : g + o' < p) :
+    (StepMap.mk [(f, o, n), (g, o', n')] false).map p (-1) = p + (n - o) + (n' - o') := by
+  rw [map_two_rule _ _ _ _ _ _ _ _ ho ho', if_neg (by omega), if_neg (by omega), if_neg (by omega),
+    if_neg (by omega)]
+
+/-- two ranges: a surviving token keeps width one, unless the first range ends where an empty second
+    range with new content starts (the touching-empty-gap shape) -/
+theorem map_two_unit (f o n g o' n' i : Int) (ho : 0 ≤ o) (ho' : 0 ≤ o') (hfg : f + o ≤ g)
+    (hne : f + o < g ∨ 0 < o' ∨ n' = 0)
+    (hout : (i < f ∨ f + o ≤ i) ∧ (i < g ∨ g + o' ≤ i)) :
+    (StepMap.mk [(f, o, n), (g, o', n')] false).map (i + 1) (-1) =
+      (StepMap.mk [(f, o, n), (g, o', n')] false).map i 1 + 1 := by
+  obtain ⟨h1 | h1, h2⟩ := hout
+  · rw [map_two_lt _ _ _ _ _ _ _ _ h1, map_two_left_le _ _ _ _ _ _ _ ho ho' (by omega)]
+  · rcases h2 with h2 | h2
+    · rw [map_two_mid _ _ _ _ _ _ _ ho h1 h2, map_two_left_mid _ _ _ _ _ _ _ ho ho' (by omega) (by omega)]
+      omega
+    · rw [map_two_left_gt _ _ _ _ _ _ _ ho ho' hfg (by omega)]
+      by_cases h3 : f + o < i
+      · rw [map_two_ge _ _ _ _ _ _ _ ho ho' h3 h2]; omega
+      · rw [map_two_end _ _ _ _ _ _ _ ho (by omega)]; omega
 
 end PM
